@@ -292,7 +292,7 @@ Definition rotate_impl (l : list T) (k : Z) : res (list T) :=
   else if rot_noop k n then Ok l
   else
     do g <- gcd_impl (rot_gcd_a k n) (rot_gcd_b k n);
-    cycles (Z.to_nat (rot_ncycles g)) l k 0.
+    cycles (Z.to_nat (rot_ncycles (rot_g g))) l k 0.
 
 Definition rotate (b : list T) (v : view) (k : Z) : res (list T) :=
   do l' <- rotate_impl (window b v) k; Ok (splice b v l').
